@@ -44,4 +44,5 @@ finally:
     sh("git -C /repo checkout -- .")
     rebuild_if_pyx()
     assert sh("git -C /repo status --porcelain").stdout.strip() == ""
+    sh("/venv/bin/python /verif/tools/translate.py")      # the generated Lean files are those of the unchanged tree again
 print(json.dumps({c: v[0] for c, v in out.items()}))
